@@ -56,9 +56,9 @@ const (
 var lateReaderNames = []string{"GetIfPresent", "GetEntry", "Get", "ComputeIfPresent(cancel)"}
 
 const (
-	lpComputed = iota // the yield point behind the writer's table computation (no lock held)
-	lpCreateCalc      // ExpireAfterCreate of the writer's new node (inside the computation, after the old node was examined)
-	lpAtomicHandler   // OnAtomicDeletion for the old value (inside the computation, the cause already chosen)
+	lpComputed      = iota // the yield point behind the writer's table computation (no lock held)
+	lpCreateCalc           // ExpireAfterCreate of the writer's new node (inside the computation, after the old node was examined)
+	lpAtomicHandler        // OnAtomicDeletion for the old value (inside the computation, the cause already chosen)
 	numLateParks
 )
 
